@@ -450,6 +450,8 @@ func VH_C03_Generated() {
 	vhC03In(rules, in)
 }
 
+func VH_C03_IncludeDiamond() { vhC03(vhDefIncludeDiamond()) }
+
 func VH_C03_Canary() {
 	in := vhInput()
 	_, toks, err := vhRunImpl(vhDefLiteral(), in)
@@ -507,6 +509,7 @@ func VH_C04_Canary() {
 }
 
 func VH_C07_Run_ElidedActions()  { vhC07Run(vhDefElidedActions()) }
+func VH_C07_Run_IncludeDiamond() { vhC07Run(vhDefIncludeDiamond()) }
 func VH_C07_Run_Literal()        { vhC07Run(vhDefLiteral()) }
 func VH_C07_Run_EmptyRule()      { vhC07Run(vhDefEmptyRule()) }
 func VH_C07_Run_PushPop()        { vhC07Run(vhDefPushPop()) }
